@@ -1252,7 +1252,11 @@ impl MutableArchive {
 
         // Add new filename if not already present
         let filename_line = filename.to_string();
-        if !current_content.contains(&filename_line) {
+        // (a line test, not a substring test: "data\\b.bin" is contained in "xdata\\b.bin")
+        let already_listed = current_content
+            .lines()
+            .any(|line| line.trim().eq_ignore_ascii_case(&filename_line));
+        if !already_listed {
             if !current_content.ends_with('\n') && !current_content.is_empty() {
                 current_content.push('\n');
             }
